@@ -404,6 +404,7 @@ inductive WritesAfter (req : Req) (key : Str) (stored : Option Entry) : OriginAn
       clientPreconditionForwarded req.header e.resp.header = false →
       (parseCC req.header).noStore = false → (parseCC r.header).noStore = false →
       en.resp.status = e.resp.status → en.resp.body = e.resp.body →
+      canStoreResponse en.resp (parseCC req.header) (parseCC en.resp.header) = true →
       WritesAfter req key stored (.resp r t1 b) [.setEntry e.id en ok]
   /-- 304 (as above) that CHANGES the Vary field of the stored response: the stored response, with the
       merged fields, same status and body, is stored anew like a full reply — under the identifier of what
@@ -412,6 +413,7 @@ inductive WritesAfter (req : Req) (key : Str) (stored : Option Entry) : OriginAn
       clientPreconditionForwarded req.header e.resp.header = false →
       (parseCC req.header).noStore = false → (parseCC r.header).noStore = false →
       merged.status = e.resp.status → merged.body = e.resp.body →
+      canStoreResponse merged (parseCC req.header) (parseCC merged.header) = true →
       joinWith [',', ' '] (Header.values merged.header sVary) ≠ joinWith [',', ' '] (Header.values e.resp.header sVary) →
       StoreWrites merged true key post →
       WritesAfter req key stored (.resp r t1 b) post
@@ -463,7 +465,8 @@ theorem validation_writes (cfg : Cfg) (req : Req) (key : Str) (stored : Entry) (
       split at h
       · cases h; exact .none _
       · rename_i hw
-        simp only [Bool.or_eq_true, not_or, Bool.not_eq_true] at hw
+        simp only [Bool.or_eq_true, not_or, Bool.not_eq_true, Bool.not_eq_eq_eq_not, Bool.not_true] at hw
+        have hcs := (Bool.not_eq_false _).mp hw.2
         split at h
         · rename_i hv
           obtain ⟨t1', t2', ht, hsw, hk⟩ := storeResponse_trace _ _ _ _ _ _ _ _ _ _ _ _ h
@@ -471,9 +474,9 @@ theorem validation_writes (cfg : Cfg) (req : Req) (key : Str) (stored : Entry) (
           simp only [List.append_nil] at ht
           subst ht
           exact .restore _ _ _ stored (respWith stored.resp (updateStoredHeaders (Header.del stored.resp.header sAge) r.header)) _
-            h304.1.2 rfl h304.2 hw.1.2 hw.2 rfl rfl (by simpa [respWith] using hv) hsw
+            h304.1.2 rfl h304.2 hw.1.1.2 hw.1.2 rfl rfl hcs (by simpa [respWith] using hv) hsw
         · cases h with
-          | setEntry ok h1 => cases h1; exact .freshen _ _ _ stored _ _ h304.1.2 rfl h304.2 hw.1.2 hw.2 rfl rfl
+          | setEntry ok h1 => cases h1; exact .freshen _ _ _ stored _ _ h304.1.2 rfl h304.2 hw.1.1.2 hw.1.2 rfl rfl hcs
     · rename_i hn304
       split at h
       · cases h; exact .none _
